@@ -28,6 +28,7 @@ def plan(tier, seed):
     specs += shards("per_dialect", 80 * (3 if q else 60), 80, seed)
     specs += shards("reused", 2000 if q else 100000, 250 if q else 4000, seed)
     specs += shards("boundaries", 480 if q else 24000, 30 if q else 600, seed)
+    specs += [{"family": "thresholds", "seed": seed, "n": 1, "part": k, "parts": 16, "tier": tier} for k in range(16)]
     specs += shards("corpus", 1, 1, seed)
     return specs
 
@@ -49,6 +50,12 @@ def run_shard(spec, M):
             doccheck.check_doc(R, M, case, "C03", reused=reused)
             if i % 499 == 0:
                 M.sample({"dialect": R.dialect, "text": short(R.text, 400)})
+    elif fam == "thresholds":
+        from .. import thresholds
+        for dim, n in thresholds.cases(spec["tier"], spec["part"], spec["parts"]):
+            R = thresholds.build(dim, n)
+            M.hist("threshold_dims", dim)
+            doccheck.check_doc(R, M, {"kind": "threshold", "dim": dim, "n": n}, "C03")
     elif fam == "corpus":
         for g in corpus.good():
             if not g["ast"]:
@@ -63,6 +70,10 @@ def run_shard(spec, M):
 
 
 def replay(case, M):
+    if case.get("kind") == "threshold":
+        from .. import thresholds
+        doccheck.check_doc(thresholds.build(case["dim"], case["n"]), M, case, "C03")
+        return
     if case.get("kind") == "shard":
         run_shard(case["spec"], M)
         return
